@@ -1,6 +1,5 @@
-(* C11 — reservation caps.  The caps hold for every history in which a peer's
-   RESERVE requests always come from the same address (caps_partial); with a
-   second address the refused-refresh history exceeds the per-IP cap (refuted). *)
+(* C11 — reservation caps, for every history.  A ghost map g remembers the address
+   each peer's current reservation was granted from (the IP/ASN it is counted under). *)
 From Coq Require Import List ZArith Bool Lia FinFun.
 From Verif Require Import lib.Wire gen.Consts_c11 c11.Model c11.Spec.
 Import ListNotations.
@@ -36,25 +35,26 @@ Qed.
 Lemma upd_same' : forall {X} (f : Z -> X) k v, upd f k v k = v.
 Proof. intros. unfold upd. rewrite Z.eqb_refl. reflexivity. Qed.
 
+Lemma upd_other' : forall {X} (f : Z -> X) k v x, x <> k -> upd f k v x = f x.
+Proof. intros. unfold upd. destruct (x =? k) eqn:E; [apply Z.eqb_eq in E; contradiction | reflexivity]. Qed.
+
 Section Caps.
 Variable c : cfg.
 Hypothesis wf_rsvp : 0 <= c_maxrsvp c.
 Hypothesis wf_ip : 0 <= c_maxip c.
 Hypothesis wf_asn : 0 <= c_maxasn c.
 
-Definition A (p : Z) : addr := addr_of c p 0.
-
-Definition kinv (s : st) : Prop :=
+Definition kinv (g : Z -> addr) (s : st) : Prop :=
   zlength (s_ctot s) <= c_maxrsvp c /\
   (forall i, zlength (s_cips s i) <= c_maxip c) /\
   (forall a, a <> 0 -> zlength (s_casns s a) <= c_maxasn c) /\
   (forall p e, s_rsvp s p = Some e -> s_now s <= e ->
-     a_noip (A p) = false /\ In (mkPe e p) (s_ctot s) /\ In (mkPe e p) (s_cips s (a_ip (A p))) /\
-     (a_asn (A p) <> 0 -> In (mkPe e p) (s_casns s (a_asn (A p))))).
+     a_noip (g p) = false /\ In (mkPe e p) (s_ctot s) /\ In (mkPe e p) (s_cips s (a_ip (g p))) /\
+     (a_asn (g p) <> 0 -> In (mkPe e p) (s_casns s (a_asn (g p))))).
 
-Lemma kinv_proj : forall s s', kproj s' = kproj s -> kinv s -> kinv s'.
+Lemma kinv_proj : forall g s s', kproj s' = kproj s -> kinv g s -> kinv g s'.
 Proof.
-  intros s s' H K. unfold kproj in H. inversion H as [[H1 H2 H3 H4 H5]]. unfold kinv in *.
+  intros g s s' H K. unfold kproj in H. inversion H as [[H1 H2 H3 H4 H5]]. unfold kinv in *.
   rewrite H1, H2, H3, H4, H5. exact K.
 Qed.
 
@@ -77,23 +77,23 @@ Lemma zlength_app1 : forall {X} (l : list X) x, zlength (l ++ [x]) = zlength l +
 Proof. intros. unfold zlength. rewrite app_length. cbn [length]. lia. Qed.
 
 (* time passing only weakens the obligation on live reservations *)
-Lemma kinv_now : forall s t, s_now s <= t -> kinv s -> kinv (set_now s t).
+Lemma kinv_now : forall g s t, s_now s <= t -> kinv g s -> kinv g (set_now s t).
 Proof.
-  intros s t Ht (K1 & K2 & K3 & K4). unfold kinv. cbn. refine (conj K1 (conj K2 (conj K3 _))).
+  intros g s t Ht (K1 & K2 & K3 & K4). unfold kinv. cbn. refine (conj K1 (conj K2 (conj K3 _))).
   intros p e Hr He. apply K4; [exact Hr | lia].
 Qed.
 
-Lemma kinv_gc : forall s tau, kinv s -> kinv (gc s tau).
+Lemma kinv_gc : forall g s tau, kinv g s -> kinv g (gc s tau).
 Proof.
-  intros s tau (K1 & K2 & K3 & K4). unfold kinv, gc. cbn. refine (conj K1 (conj K2 (conj K3 _))).
+  intros g s tau (K1 & K2 & K3 & K4). unfold kinv, gc. cbn. refine (conj K1 (conj K2 (conj K3 _))).
   intros p e Hr He. apply K4; [|exact He]. destruct (s_rsvp s p) as [e'|]; [|discriminate].
   destruct (s_closed s || (e' <? tau)); [discriminate | exact Hr].
 Qed.
 
-Lemma kinv_cleanup_peer_rsvp : forall s p, kinv s ->
-  kinv (c_cleanup_peer (set_rsvp s (upd (s_rsvp s) p None)) p).
+Lemma kinv_cleanup_peer_rsvp : forall g s p, kinv g s ->
+  kinv g (c_cleanup_peer (set_rsvp s (upd (s_rsvp s) p None)) p).
 Proof.
-  intros s p (K1 & K2 & K3 & K4). unfold kinv, c_cleanup_peer. cbn.
+  intros g s p (K1 & K2 & K3 & K4). unfold kinv, c_cleanup_peer. cbn.
   split; [|split; [|split]].
   - eapply Z.le_trans; [apply zlength_filter_le | exact K1].
   - intros i. eapply Z.le_trans; [apply zlength_filter_le | apply K2].
@@ -107,148 +107,137 @@ Proof.
     + intros Ha. apply filter_In. split; [apply I3, Ha | assumption].
 Qed.
 
-Lemma kinv_on_disc : forall s p, kinv s -> kinv (on_disconnected s p).
+Lemma kinv_on_disc : forall g s p, kinv g s -> kinv g (on_disconnected s p).
 Proof.
-  intros s p K. unfold on_disconnected. destruct (s_closed s).
+  intros g s p K. unfold on_disconnected. destruct (s_closed s).
   - eapply kinv_proj; [|exact K]. reflexivity.
-  - eapply kinv_proj; [|apply (kinv_cleanup_peer_rsvp s p K)]. reflexivity.
+  - eapply kinv_proj; [|apply (kinv_cleanup_peer_rsvp g s p K)]. reflexivity.
 Qed.
 
-Lemma kinv_close_conn : forall s p k, kinv s -> kinv (close_conn c s p k).
+Lemma kinv_close_conn : forall g s p k, kinv g s -> kinv g (close_conn c s p k).
 Proof.
-  intros s p k K. unfold close_conn. destruct (s_link s p k); [|exact K].
+  intros g s p k K. unfold close_conn. destruct (s_link s p k); [|exact K].
   match goal with |- context [kill_where c ?s1 ?f] =>
-    assert (K1 : kinv (kill_where c s1 f)) by (eapply kinv_proj; [apply kill_where_k | exact K]);
+    assert (K1 : kinv g (kill_where c s1 f)) by (eapply kinv_proj; [apply kill_where_k | exact K]);
     destruct (connected (kill_where c s1 f) p); [exact K1 | apply kinv_on_disc, K1] end.
 Qed.
 
-Lemma kinv_close_peer : forall s p, kinv s -> kinv (close_peer c s p).
+Lemma kinv_close_peer : forall g s p, kinv g s -> kinv g (close_peer c s p).
 Proof. intros. unfold close_peer. apply kinv_close_conn, kinv_close_conn. assumption. Qed.
 
-Lemma kinv_advance : forall s t, kinv s -> kinv (advance_to c s t).
+Lemma kinv_advance : forall g s t, kinv g s -> kinv g (advance_to c s t).
 Proof.
-  intros s t K. unfold advance_to. cbv zeta.
+  intros g s t K. unfold advance_to. cbv zeta.
   match goal with |- context [kill_where c s ?f] =>
-    assert (K1 : kinv (kill_where c s f)) by (eapply kinv_proj; [apply kill_where_k | exact K]);
+    assert (K1 : kinv g (kill_where c s f)) by (eapply kinv_proj; [apply kill_where_k | exact K]);
     assert (N1 : s_now (kill_where c s f) = s_now s) by (pose proof (kill_where_k c s f) as Hk; unfold kproj in Hk; congruence)
   end.
-  match goal with |- kinv (set_now (if ?b then _ else _) _) => destruct b end.
+  match goal with |- kinv g (set_now (if ?b then _ else _) _) => destruct b end.
   - apply kinv_now; [|apply kinv_gc, K1]. cbn. rewrite N1. lia.
   - apply kinv_now; [|exact K1]. rewrite N1. lia.
 Qed.
 
-(* constraints.Reserve from the peer's own address: a refresh by a holder of a live
-   reservation is never refused, so Relay.rsvp and the constraint slices stay in step *)
-Lemma kinv_reserve : forall s p exp, kinv s -> s_now s <= exp ->
-  let '(s2, ok) := c_reserve c s p (A p) (s_now s) exp in
-  if ok then kinv (set_rsvp s2 (upd (s_rsvp s2) p (Some exp))) else kinv s2.
+(* constraints.Reserve (repaired): a refusal only runs cleanup(now); a grant replaces the
+   peer's entries by one under the new address *)
+Lemma others_cleanup_peer : forall p l, others p l = zlength (filter (fun e : pe => negb (pe_peer e =? p)) l).
+Proof. reflexivity. Qed.
+
+Lemma kinv_reserve : forall g s p a exp, kinv g s ->
+  let '(s2, ok) := c_reserve c s p a (s_now s) exp in
+  if ok then kinv (upd g p a) (set_rsvp s2 (upd (s_rsvp s2) p (Some exp))) else kinv g s2.
 Proof.
-  intros s p exp (K1 & K2 & K3 & K4) Hexp. unfold c_reserve. cbv zeta.
+  intros g s p a exp (K1 & K2 & K3 & K4). unfold c_reserve. cbv zeta.
   set (keep1 := fun e : pe => negb (pe_exp e <? s_now s)).
   set (keep2 := fun e : pe => negb (pe_peer e =? p)).
-  (* the state after cleanup(now); cleanupPeer(p) *)
-  set (s1 := c_cleanup_peer (c_cleanup s (s_now s)) p).
-  assert (T1 : s_ctot s1 = filter keep2 (filter keep1 (s_ctot s))) by reflexivity.
-  assert (T2 : forall i, s_cips s1 i = filter keep2 (filter keep1 (s_cips s i))) by reflexivity.
-  assert (T3 : forall a, s_casns s1 a = filter keep2 (filter keep1 (s_casns s a))) by reflexivity.
-  assert (R1 : s_rsvp s1 = s_rsvp s) by reflexivity.
-  assert (N1 : s_now s1 = s_now s) by reflexivity.
-  assert (L1 : zlength (s_ctot s1) <= c_maxrsvp c).
-  { rewrite T1. eapply Z.le_trans; [apply zlength_filter_le|]. eapply Z.le_trans; [apply zlength_filter_le | exact K1]. }
-  assert (L2 : forall i, zlength (s_cips s1 i) <= c_maxip c).
-  { intros i. rewrite T2. eapply Z.le_trans; [apply zlength_filter_le|]. eapply Z.le_trans; [apply zlength_filter_le | apply K2]. }
-  assert (L3 : forall a, a <> 0 -> zlength (s_casns s1 a) <= c_maxasn c).
-  { intros a Ha. rewrite T3. eapply Z.le_trans; [apply zlength_filter_le|]. eapply Z.le_trans; [apply zlength_filter_le | apply K3, Ha]. }
-  (* entries of the other peers' live reservations survive *)
-  assert (Oth : forall q e, q <> p -> s_rsvp s q = Some e -> s_now s <= e ->
-     a_noip (A q) = false /\ In (mkPe e q) (s_ctot s1) /\ In (mkPe e q) (s_cips s1 (a_ip (A q))) /\
-     (a_asn (A q) <> 0 -> In (mkPe e q) (s_casns s1 (a_asn (A q))))).
-  { intros q e Hq Hr He. destruct (K4 q e Hr He) as (N & I1 & I2 & I3).
-    assert (Hk1 : keep1 (mkPe e q) = true) by (unfold keep1; cbn; apply negb_true_iff, Z.ltb_ge; lia).
-    assert (Hk2 : keep2 (mkPe e q) = true) by (unfold keep2; cbn; apply negb_true_iff, Z.eqb_neq; exact Hq).
-    refine (conj N (conj _ (conj _ _))).
-    - rewrite T1. apply filter_In; split; [apply filter_In; split|]; assumption.
-    - rewrite T2. apply filter_In; split; [apply filter_In; split|]; assumption.
-    - intros Ha. rewrite T3. apply filter_In; split; [apply filter_In; split|]; auto. }
-  (* a live reservation of p itself leaves room in every slice *)
-  assert (Own : forall e, s_rsvp s p = Some e -> s_now s <= e ->
-     a_noip (A p) = false /\ zlength (s_ctot s1) < c_maxrsvp c /\ zlength (s_cips s1 (a_ip (A p))) < c_maxip c /\
-     (a_asn (A p) <> 0 -> zlength (s_casns s1 (a_asn (A p))) < c_maxasn c)).
-  { intros e Hr He. destruct (K4 p e Hr He) as (N & I1 & I2 & I3).
-    assert (Hk1 : keep1 (mkPe e p) = true) by (unfold keep1; cbn; apply negb_true_iff, Z.ltb_ge; lia).
-    assert (Hk2 : keep2 (mkPe e p) = false) by (unfold keep2; cbn; rewrite Z.eqb_refl; reflexivity).
-    refine (conj N (conj _ (conj _ _))).
-    - rewrite T1. eapply Z.lt_le_trans; [apply (zlength_filter_lt keep2 _ (mkPe e p)); [apply filter_In; split; assumption | exact Hk2]|].
-      eapply Z.le_trans; [apply zlength_filter_le | exact K1].
-    - rewrite T2. eapply Z.lt_le_trans; [apply (zlength_filter_lt keep2 _ (mkPe e p)); [apply filter_In; split; assumption | exact Hk2]|].
-      eapply Z.le_trans; [apply zlength_filter_le | apply K2].
-    - intros Ha. rewrite T3. eapply Z.lt_le_trans; [apply (zlength_filter_lt keep2 _ (mkPe e p)); [apply filter_In; split; auto | exact Hk2]|].
-      eapply Z.le_trans; [apply zlength_filter_le | apply K3, Ha]. }
-  (* a refusal leaves s1: fine unless p held a live reservation — impossible *)
-  assert (Ref : (forall e, s_rsvp s p = Some e -> s_now s <= e -> False) -> kinv s1).
-  { intros Hno. unfold kinv. rewrite R1, N1. refine (conj L1 (conj L2 (conj L3 _))).
-    intros q e Hr He. destruct (Z.eq_dec q p) as [->|Hq]; [exfalso; eapply Hno; eassumption | apply Oth; assumption]. }
-  fold s1.
-  destruct (zlength (s_ctot s1) >=? c_maxrsvp c) eqn:E1.
-  { apply Ref. intros e Hr He. destruct (Own e Hr He) as (_ & O & _). lia. }
-  destruct (a_noip (A p)) eqn:E2.
-  { apply Ref. intros e Hr He. destruct (Own e Hr He) as (O & _). discriminate. }
-  destruct (zlength (s_cips s1 (a_ip (A p))) >=? c_maxip c) eqn:E3.
-  { apply Ref. intros e Hr He. destruct (Own e Hr He) as (_ & _ & O & _). lia. }
-  destruct (negb (a_asn (A p) =? 0) && (zlength (s_casns s1 (a_asn (A p))) >=? c_maxasn c)) eqn:E4.
-  { apply Ref. intros e Hr He. destruct (Own e Hr He) as (_ & _ & _ & O).
-    apply andb_true_iff in E4. destruct E4 as [E4 E5]. apply negb_true_iff, Z.eqb_neq in E4. specialize (O E4). lia. }
+  set (s0 := c_cleanup s (s_now s)).
+  assert (T1 : s_ctot s0 = filter keep1 (s_ctot s)) by reflexivity.
+  assert (T2 : forall i, s_cips s0 i = filter keep1 (s_cips s i)) by reflexivity.
+  assert (T3 : forall x, s_casns s0 x = filter keep1 (s_casns s x)) by reflexivity.
+  assert (R0 : s_rsvp s0 = s_rsvp s) by reflexivity.
+  assert (N0 : s_now s0 = s_now s) by reflexivity.
+  (* cleanup(now) keeps the invariant *)
+  assert (K0 : kinv g s0).
+  { unfold kinv. rewrite R0, N0, T1. split; [|split; [|split]].
+    - eapply Z.le_trans; [apply zlength_filter_le | exact K1].
+    - intros i. rewrite T2. eapply Z.le_trans; [apply zlength_filter_le | apply K2].
+    - intros x Hx. rewrite T3. eapply Z.le_trans; [apply zlength_filter_le | apply K3, Hx].
+    - intros q e Hr He. destruct (K4 q e Hr He) as (N & I1 & I2 & I3).
+      assert (Hk1 : keep1 (mkPe e q) = true) by (unfold keep1; cbn; apply negb_true_iff, Z.ltb_ge; lia).
+      refine (conj N (conj _ (conj _ _))).
+      + apply filter_In; split; assumption.
+      + rewrite T2. apply filter_In; split; assumption.
+      + intros Hx. rewrite T3. apply filter_In; split; auto. }
+  fold s0.
+  destruct (others p (s_ctot s0) >=? c_maxrsvp c) eqn:E1; [exact K0|].
+  destruct (a_noip a) eqn:E2; [exact K0|].
+  destruct (others p (s_cips s0 (a_ip a)) >=? c_maxip c) eqn:E3; [exact K0|].
+  destruct (negb (a_asn a =? 0) && (others p (s_casns s0 (a_asn a)) >=? c_maxasn c)) eqn:E4; [exact K0|].
   (* granted *)
-  unfold kinv. cbn [set_rsvp set_cons s_rsvp s_ctot s_cips s_casns s_now]. rewrite N1.
+  destruct K0 as (J1 & J2 & J3 & J4).
+  set (s1 := c_cleanup_peer s0 p).
+  assert (U1 : s_ctot s1 = filter keep2 (s_ctot s0)) by reflexivity.
+  assert (U2 : forall i, s_cips s1 i = filter keep2 (s_cips s0 i)) by reflexivity.
+  assert (U3 : forall x, s_casns s1 x = filter keep2 (s_casns s0 x)) by reflexivity.
+  unfold others in E1, E3, E4. fold keep2 in E1, E3, E4. rewrite <- U1 in E1. rewrite <- U2 in E3. rewrite <- U3 in E4.
+  unfold kinv. cbn [set_rsvp set_cons s_rsvp s_ctot s_cips s_casns s_now].
+  change (s_now s1) with (s_now s). change (s_rsvp s1) with (s_rsvp s).
   split; [|split; [|split]].
   - rewrite zlength_app1. lia.
-  - intros i. unfold upd. destruct (i =? a_ip (A p)) eqn:E; [apply Z.eqb_eq in E; subst i; rewrite zlength_app1; lia | apply L2].
-  - intros a Ha. destruct (a_asn (A p) =? 0) eqn:E; [apply L3, Ha|].
-    unfold upd. destruct (a =? a_asn (A p)) eqn:E'; [|apply L3, Ha]. apply Z.eqb_eq in E'; subst a.
+  - intros i. unfold upd. destruct (i =? a_ip a) eqn:E; [apply Z.eqb_eq in E; subst i; rewrite zlength_app1; lia|].
+    rewrite U2. eapply Z.le_trans; [apply zlength_filter_le | apply J2].
+  - intros x Hx. assert (Lx : zlength (s_casns s1 x) <= c_maxasn c) by (rewrite U3; eapply Z.le_trans; [apply zlength_filter_le | apply J3, Hx]).
+    destruct (a_asn a =? 0) eqn:E; [exact Lx|].
+    unfold upd. destruct (x =? a_asn a) eqn:E'; [|exact Lx]. apply Z.eqb_eq in E'; subst x.
     rewrite zlength_app1. cbn [negb andb] in E4. lia.
-  - intros q e Hr He. unfold upd in Hr. destruct (q =? p) eqn:Eq.
-    + apply Z.eqb_eq in Eq; subst q. inversion Hr; subst e. refine (conj E2 (conj _ (conj _ _))).
+  - intros q e Hr He. destruct (Z.eq_dec q p) as [->|Eq].
+    + rewrite upd_same' in Hr. inversion Hr; subst e. rewrite !upd_same'. refine (conj E2 (conj _ (conj _ _))).
       * apply in_or_app; right; left; reflexivity.
-      * rewrite upd_same'. apply in_or_app; right; left; reflexivity.
-      * intros Ha. apply Z.eqb_neq in Ha. rewrite Ha. rewrite upd_same'. apply in_or_app; right; left; reflexivity.
-    + apply Z.eqb_neq in Eq. rewrite R1 in Hr. destruct (Oth q e Eq Hr He) as (N & I1 & I2 & I3).
+      * apply in_or_app; right; left; reflexivity.
+      * intros Hx. apply Z.eqb_neq in Hx. rewrite Hx. rewrite upd_same'. apply in_or_app; right; left; reflexivity.
+    + rewrite upd_other' in Hr by exact Eq. rewrite !(upd_other' g) by exact Eq.
+      rewrite N0 in J4. rewrite R0 in J4. destruct (J4 q e Hr He) as (N & I1 & I2 & I3).
+      assert (Hk2 : keep2 (mkPe e q) = true) by (unfold keep2; cbn; apply negb_true_iff, Z.eqb_neq; exact Eq).
       refine (conj N (conj _ (conj _ _))).
-      * apply in_or_app; left; exact I1.
-      * unfold upd. destruct (a_ip (A q) =? a_ip (A p)) eqn:E; [apply Z.eqb_eq in E; rewrite E in *; apply in_or_app; left; exact I2 | exact I2].
-      * intros Ha. specialize (I3 Ha). destruct (a_asn (A p) =? 0); [exact I3|].
-        unfold upd. destruct (a_asn (A q) =? a_asn (A p)) eqn:E; [apply Z.eqb_eq in E; rewrite E in *; apply in_or_app; left; exact I3 | exact I3].
+      * apply in_or_app; left. rewrite U1. apply filter_In; split; assumption.
+      * assert (I2' : In (mkPe e q) (s_cips s1 (a_ip (g q)))) by (rewrite U2; apply filter_In; split; assumption).
+        unfold upd. destruct (a_ip (g q) =? a_ip a) eqn:E; [apply Z.eqb_eq in E; rewrite E in *; apply in_or_app; left; exact I2' | exact I2'].
+      * intros Hx. assert (I3' : In (mkPe e q) (s_casns s1 (a_asn (g q)))) by (rewrite U3; apply filter_In; split; auto).
+        destruct (a_asn a =? 0); [exact I3'|].
+        unfold upd. destruct (a_asn (g q) =? a_asn a) eqn:E; [apply Z.eqb_eq in E; rewrite E in *; apply in_or_app; left; exact I3' | exact I3'].
 Qed.
 
-Lemma kinv_handle_reserve : forall s p k acl inj, addr_of c p k = A p -> 0 <= c_ttl c -> kinv s ->
-  kinv (fst (handle_reserve c s p k acl inj)).
+Lemma kinv_handle_reserve : forall g s p k acl inj, kinv g s ->
+  kinv (if nth 1 (snd (handle_reserve c s p k acl inj)) 0 =? 1 then upd g p (addr_of c p k) else g)
+       (fst (handle_reserve c s p k acl inj)).
 Proof.
-  intros s p k acl inj Ha Httl K. unfold handle_reserve.
+  intros g s p k acl inj K. unfold handle_reserve.
   destruct (negb (s_link s p k) || s_closed s); [exact K|].
   destruct (negb (mem_ok_always c (s_mem s) maxMessageSize)); [exact K|].
-  rewrite Ha. destruct (a_relayed (A p)); [exact K|]. cbv zeta.
-  assert (K1 : kinv (if inj =? 2 then close_peer c (advance_to c s (s_now s + 1)) p else s)).
+  destruct (a_relayed (addr_of c p k)); [exact K|]. cbv zeta.
+  assert (K1 : kinv g (if inj =? 2 then close_peer c (advance_to c s (s_now s + 1)) p else s)).
   { destruct (inj =? 2); [apply kinv_close_peer, kinv_advance|]; exact K. }
   set (s1 := if inj =? 2 then close_peer c (advance_to c s (s_now s + 1)) p else s) in *.
   destruct (negb acl); [exact K1|].
-  pose proof (kinv_reserve s1 p (s_now s1 + c_ttl c) K1 ltac:(lia)) as R.
-  destruct (c_reserve c s1 p (A p) (s_now s1) (s_now s1 + c_ttl c)) as [s2 ok].
-  destruct ok; cbn [negb]; [|exact R].
-  destruct (inj =? 2); cbn [fst]; (eapply kinv_proj; [|exact R]); reflexivity.
+  destruct (negb (connected s1 p)); [exact K1|].
+  pose proof (kinv_reserve g s1 p (addr_of c p k) (s_now s1 + c_ttl c) K1) as R.
+  destruct (c_reserve c s1 p (addr_of c p k) (s_now s1) (s_now s1 + c_ttl c)) as [s2 ok].
+  destruct ok; cbn [negb fst snd nth]; [|exact R].
+  change (1 =? 1) with true. cbn iota. eapply kinv_proj; [|exact R]. reflexivity.
 Qed.
 
-Lemma kinv_handle_connect : forall s src sa dst acl dm sm dc, kinv s ->
-  kinv (fst (handle_connect c s src sa dst acl dm sm dc)).
+Lemma kinv_handle_connect : forall g s src sa dst acl dm sm dc, kinv g s ->
+  kinv g (fst (handle_connect c s src sa dst acl dm sm dc)).
 Proof.
-  intros s src sa dst acl dm sm dc K. unfold handle_connect.
-  repeat match goal with |- kinv (fst (if ?b then (s, _) else _)) => destruct b; [exact K|] end.
+  intros g s src sa dst acl dm sm dc K. unfold handle_connect.
+  repeat match goal with |- kinv g (fst (if ?b then (s, _) else _)) => destruct b; [exact K|] end.
   destruct (s_rsvp s dst); [|exact K].
-  repeat match goal with |- kinv (fst (if ?b then (s, _) else _)) => destruct b; [exact K|] end.
+  repeat match goal with |- kinv g (fst (if ?b then (s, _) else _)) => destruct b; [exact K|] end.
   cbv zeta.
   set (s1 := set_mem (add_conn (add_conn s src) dst) (s_mem s + 2 * c_buf c)).
   assert (P1 : kproj s1 = kproj s).
   { unfold s1. change (kproj (add_conn (add_conn s src) dst) = kproj s). rewrite add_conn_k, add_conn_k. reflexivity. }
-  assert (K1 : kinv s1) by (eapply kinv_proj; eassumption).
-  repeat match goal with |- kinv (fst (if ?b then (cleanup_circ c s1 src dst, _) else _)) =>
+  assert (K1 : kinv g s1) by (eapply kinv_proj; eassumption).
+  repeat match goal with |- kinv g (fst (if ?b then (cleanup_circ c s1 src dst, _) else _)) =>
     destruct b; [cbn [fst]; eapply kinv_proj; [apply cleanup_circ_k | exact K1]|] end.
   destruct (sm =? 3); cbn [fst].
   - eapply kinv_proj; [apply cleanup_circ_k|]. apply kinv_close_peer, kinv_advance, K1.
@@ -261,15 +250,20 @@ Proof.
   rewrite cleanup_circ_k. reflexivity.
 Qed.
 
-Lemma kinv_apply_op : forall s o, 0 <= c_ttl c ->
-  (forall p k acl inj, o = OReserve p k acl inj -> addr_of c p k = A p) ->
-  kinv s -> kinv (fst (apply_op c s o)).
+(* the ghost: the address a peer's current reservation was granted from *)
+Definition gupd (g : Z -> addr) (o : op) (obs : list Z) : Z -> addr :=
+  match o with
+  | OReserve p k _ _ => if nth 1 obs 0 =? 1 then upd g p (addr_of c p (nk k)) else g
+  | _ => g
+  end.
+
+Lemma kinv_apply_op : forall g s o, kinv g s ->
+  kinv (gupd g o (snd (apply_op c s o))) (fst (apply_op c s o)).
 Proof.
-  intros s o Httl Hst K. destruct o; cbn [apply_op fst].
+  intros g s o K. destruct o; cbn [apply_op fst snd gupd].
   - eapply kinv_proj; [|exact K]. reflexivity.
   - apply kinv_close_conn, K.
-  - apply kinv_handle_reserve; [| exact Httl | exact K].
-    rewrite <- (Hst p k acl inj eq_refl). unfold addr_of, nk. destruct (k =? 0); reflexivity.
+  - apply kinv_handle_reserve, K.
   - apply kinv_handle_connect, K.
   - unfold send. destruct (find_circ s cid); [|exact K]. cbv zeta. destruct (_ || _); [exact K|].
     destruct (dir =? 0); (eapply kinv_proj; [apply settle_k | exact K]).
@@ -279,28 +273,34 @@ Proof.
     eapply kinv_proj; [apply kill_where_k | exact K].
   - apply kinv_advance, K.
   - unfold close_relay. destruct (s_closed s); [exact K|].
-    eapply kinv_proj; [|apply (kinv_gc (set_closed s true) (s_now s)); eapply kinv_proj; [|exact K]; reflexivity]. reflexivity.
+    eapply kinv_proj; [|apply (kinv_gc g (set_closed s true) (s_now s)); eapply kinv_proj; [|exact K]; reflexivity]. reflexivity.
 Qed.
 
-(* every RESERVE of a peer comes from the peer's address 0 (same IP/ASN class) *)
-Definition stable_addrs (ops : list (Z * op * Z)) : Prop :=
-  forall t p k acl inj tend, In (t, OReserve p k acl inj, tend) ops -> addr_of c p k = A p.
+Fixpoint grun (s : st) (g : Z -> addr) (ops : list (Z * op * Z)) : st * (Z -> addr) :=
+  match ops with
+  | [] => (s, g)
+  | (t, o, tend) :: r => let '(s', obs) := step c s t o tend in grun s' (gupd g o obs) r
+  end.
 
-Lemma kinv_init : kinv init_st.
+Lemma grun_run : forall ops s g, fst (grun s g ops) = run c s ops.
 Proof.
-  unfold kinv, init_st. cbn. refine (conj wf_rsvp (conj (fun _ => wf_ip) (conj (fun _ _ => wf_asn) _))).
+  induction ops as [|[[t o] tend] r IH]; intros s g; [reflexivity|].
+  cbn [grun run]. destruct (step c s t o tend) as [s' obs]. cbn [fst]. apply IH.
+Qed.
+
+Lemma kinv_init : forall g, kinv g init_st.
+Proof.
+  intros g. unfold kinv, init_st. cbn. refine (conj wf_rsvp (conj (fun _ => wf_ip) (conj (fun _ _ => wf_asn) _))).
   intros p e H. discriminate.
 Qed.
 
-Lemma kinv_run : forall ops s, 0 <= c_ttl c -> stable_addrs ops -> kinv s -> kinv (run c s ops).
+Lemma kinv_grun : forall ops s g, kinv g s -> kinv (snd (grun s g ops)) (fst (grun s g ops)).
 Proof.
-  induction ops as [|[[t o] tend] r IH]; intros s Httl Hst K; [exact K|].
-  cbn [run]. apply IH; [exact Httl | intros t' p k acl inj tend' Hin; eapply Hst; right; exact Hin |].
-  unfold step.
-  assert (K1 : kinv (fst (apply_op c (advance_to c s t) o))).
-  { apply kinv_apply_op; [exact Httl | | apply kinv_advance, K].
-    intros p k acl inj ->. eapply Hst. left. reflexivity. }
-  destruct (apply_op c (advance_to c s t) o) as [s1 obs]. cbn [fst] in *. apply kinv_advance, K1.
+  induction ops as [|[[t o] tend] r IH]; intros s g K; [exact K|].
+  cbn [grun]. unfold step.
+  pose proof (kinv_apply_op g (advance_to c s t) o (kinv_advance g s t K)) as K1.
+  destruct (apply_op c (advance_to c s t) o) as [s1 obs]. cbn [fst snd] in K1.
+  apply IH. apply kinv_advance, K1.
 Qed.
 
 (* ---- counting ------------------------------------------------------------------------ *)
@@ -321,12 +321,12 @@ Proof.
   apply NoDup_incl_length; [|exact H]. unfold holders. apply NoDup_filter, NoDup_zseq.
 Qed.
 
-Lemma caps_of_kinv : forall s, kinv s ->
+Lemma caps_of_kinv : forall g s, kinv g s ->
   zlength (holders s (fun _ => true)) <= c_maxrsvp c /\
-  (forall i, zlength (holders s (fun p => a_ip (A p) =? i)) <= c_maxip c) /\
-  (forall a, a <> 0 -> zlength (holders s (fun p => a_asn (A p) =? a)) <= c_maxasn c).
+  (forall i, zlength (holders s (fun p => a_ip (g p) =? i)) <= c_maxip c) /\
+  (forall a, a <> 0 -> zlength (holders s (fun p => a_asn (g p) =? a)) <= c_maxasn c).
 Proof.
-  intros s (K1 & K2 & K3 & K4).
+  intros g s (K1 & K2 & K3 & K4).
   assert (Hh : forall q p, In p (holders s q) -> exists e, s_rsvp s p = Some e /\ s_now s <= e /\ q p = true).
   { intros q p Hin. unfold holders in Hin. apply filter_In in Hin. destruct Hin as [_ Hin].
     destruct (s_rsvp s p) as [e|]; [|discriminate]. apply andb_true_iff in Hin. destruct Hin as [H1 H2].
@@ -344,14 +344,16 @@ Proof.
 Qed.
 End Caps.
 
-(* caps for every history with stable addresses *)
-Lemma caps_partial_l : forall c ops,
-  0 <= c_maxrsvp c -> 0 <= c_maxip c -> 0 <= c_maxasn c -> 0 <= c_ttl c -> stable_addrs c ops ->
-  let s := run c init_st ops in
+(* caps for EVERY history: g = the address each holder's reservation was granted from *)
+Lemma caps_l : forall c ops,
+  0 <= c_maxrsvp c -> 0 <= c_maxip c -> 0 <= c_maxasn c ->
+  let s := fst (grun c init_st (fun _ => addr0) ops) in
+  let g := snd (grun c init_st (fun _ => addr0) ops) in
+  s = run c init_st ops /\
   zlength (holders c s (fun _ => true)) <= c_maxrsvp c /\
-  (forall i, zlength (holders c s (fun p => a_ip (A c p) =? i)) <= c_maxip c) /\
-  (forall a, a <> 0 -> zlength (holders c s (fun p => a_asn (A c p) =? a)) <= c_maxasn c).
+  (forall i, zlength (holders c s (fun p => a_ip (g p) =? i)) <= c_maxip c) /\
+  (forall a, a <> 0 -> zlength (holders c s (fun p => a_asn (g p) =? a)) <= c_maxasn c).
 Proof.
-  intros c ops W1 W2 W3 W4 Hst s. apply caps_of_kinv.
-  apply (kinv_run c ops init_st W4 Hst). apply kinv_init; assumption.
+  intros c ops W1 W2 W3 s g. split; [apply grun_run|].
+  apply (caps_of_kinv c g s). apply kinv_grun. apply kinv_init; assumption.
 Qed.
